@@ -23,7 +23,7 @@ static PyObject* PyCHist_chist(PyObject* self, PyObject* args) {
     npy_int64
         i=0,
         binnum_old = 0,
-        offset = 0, data_index = 0, binnum=0, tbin = 0;
+        offset = 0, end_offset = 0, data_index = 0, binnum=0, tbin = 0;
     double thisdata=0;
 
     if (!PyArg_ParseTuple(args, (char*)"OdOdOO",
@@ -50,6 +50,8 @@ static PyObject* PyCHist_chist(PyObject* self, PyObject* args) {
     // this is my reverse engineering of the IDL reverse
     // indices
     binnum_old = -1;
+    // offset just past the last datum that was counted
+    end_offset = nbin + 1;
 
     for (i=0; i<ndata; i++) {
 
@@ -79,13 +81,16 @@ static PyObject* PyCHist_chist(PyObject* self, PyObject* args) {
             // Update the histogram
             hist[binnum] = hist[binnum] + 1;
             binnum_old = binnum;
+            end_offset = offset + 1;
         }
     }
 
     tbin = binnum_old + 1;
     while (tbin <= nbin) {
         if (dorev) {
-            rev[tbin] = nrev;
+            // data past the last valid bin are not counted, so they must
+            // not appear in the slice of the last occupied bin
+            rev[tbin] = end_offset;
         }
         tbin++;
     }
